@@ -25,6 +25,9 @@ func RunDriver(path string, args []string, lines []string) ([]string, error) {
 		in.WriteString(l)
 		in.WriteByte('\n')
 	}
+	if d := os.Getenv("VERIF_DUMP"); d != "" {
+		os.WriteFile(d+"/"+strings.Join(args, "_")+".lines", in.Bytes(), 0o644)
+	}
 	cmd := exec.Command(path, args...)
 	cmd.Stdin = &in
 	var out, errb bytes.Buffer
